@@ -134,7 +134,20 @@ def _mk_coll(members, aligned):
     from ndcube import NDCollection
     pairs = [(KEYS[m["key"]], _mk_member(m, m["key"])) for m in members]
     if aligned:
-        return NDCollection(pairs, aligned_axes=tuple(tuple(m["al"]) for m in members))
+        import zlib
+        als = tuple(tuple(m["al"]) for m in members)
+        k = zlib.crc32(("al" + str([[m["key"], m["shape"], m["al"]] for m in members])).encode()) % 5
+        variants = []
+        if k == 0:                                   # axis numbers counted from the last axis
+            variants.append(tuple(tuple(a - len(m["shape"]) for a in m["al"]) for m in members))
+        elif k == 1 and len(set(als)) == 1:          # the same axes in every member: given once; a lone axis as a bare int
+            variants.append(als[0][0] if len(als[0]) == 1 else als[0])
+        for v in variants:
+            try:
+                return NDCollection(pairs, aligned_axes=v)
+            except (ValueError, TypeError, IndexError):
+                pass                                 # a constructor that refuses this spelling is fine too
+        return NDCollection(pairs, aligned_axes=als)
     return NDCollection(pairs)
 
 
